@@ -52,6 +52,8 @@ func init() {
 }
 
 func runC23(c *core.Ctx) {
+	c.Rule("FLOATEXACT", "datasources parse floats exactly")
+	checkExactFloatParsing(c, "FLOATEXACT")
 	c.Rule("SPLIT", "lines: split exactly at the configured separator")
 	c.Rule("LINENO", "lines: numbering from 0, once per record")
 	c.Rule("SCANBUF", "scanner bytes are copied before they are queued")
@@ -1275,4 +1277,49 @@ func checkCSVUniqueNames(c *core.Ctx, rule string) {
 	})
 	c.Decide(unique, rule, "datasources/csv.Creator/unique column names", fn.Decl.Pos(), 1, "a header naming a column twice is rejected",
 		"the reader selects file columns by name and fills slot i from the i-th selected column: with a repeated header name more columns are selected than the pruned schema has fields (index out of range), so the creator must reject a header that names a column twice")
+}
+
+// inexactFloatParsers: library routines that do not return the float64 nearest to the decimal text. fastfloat.Parse
+// scales the mantissa with a float multiplication by a power of ten (exact only without an exponent part and with
+// few digits), and fastjson's number accessors are built on it: 65.162e-1 reads as 6.516200000000001.
+var inexactFloatParsers = map[string]string{
+	"github.com/valyala/fastjson/fastfloat.Parse":           "multiplies the mantissa by a float power of ten",
+	"github.com/valyala/fastjson/fastfloat.ParseBestEffort": "same arithmetic as Parse, and swallows syntax errors",
+	"(*github.com/valyala/fastjson.Value).Float64":          "calls fastfloat.Parse on the number's text",
+	"(*github.com/valyala/fastjson.Value).GetFloat64":       "calls fastfloat.ParseBestEffort on the number's text",
+	"(*github.com/valyala/fastjson.Object).GetFloat64":      "calls fastfloat.ParseBestEffort on the number's text",
+}
+
+// checkExactFloatParsing (FLOATEXACT): a datasource turns the text of a number into the float64 nearest to it — the
+// value "the row contains", the one schema inference (strconv) saw and the one -o json prints back. No datasource may
+// produce its Float values with one of the library's inexact parsers.
+func checkExactFloatParsing(c *core.Ctx, rule string) {
+	p := c.Prog
+	n, calls := 0, 0
+	for _, fr := range p.AllFuncs("datasources") {
+		info := fr.Info()
+		name := p.FName(fr)
+		ast.Inspect(fr.Decl.Body, func(nd ast.Node) bool {
+			call, ok := nd.(*ast.CallExpr)
+			if !ok {
+				return true
+			}
+			calls++
+			f, ok := core.Callee(info, call).(*types.Func)
+			if !ok || f.Pkg() == nil {
+				return true
+			}
+			full := f.FullName()
+			why, bad := inexactFloatParsers[full]
+			if !bad {
+				return true
+			}
+			n++
+			c.SawFunc(name)
+			c.Bad(rule, name+"→"+full, call.Pos(), 1, fmt.Sprintf("%s is not an exact decimal-to-float conversion (it %s): a cell such as 65.162e-1 is read as 6.516200000000001, `where a = 6.5162` misses the row, and floats octosql printed itself with -o json change when read back; parse with strconv.ParseFloat", full, why))
+			return true
+		})
+	}
+	c.OK(rule, "calls in package datasources", 0, calls, fmt.Sprintf("%d calls scanned, %d reach an inexact float parser", calls, n))
+	c.Floor(rule, 1, "datasource call sites scanned")
 }
